@@ -2958,6 +2958,9 @@ pub struct BytecodeGeneratorState {
     pub is_async: bool,
     /// Exception to throw when resuming (for generator.throw())
     pub throw_value: Option<JsValue>,
+    /// Value to return at the point of suspension when resuming (for generator.return()):
+    /// enclosing finally blocks run first
+    pub return_value: Option<JsValue>,
 }
 
 impl fmt::Debug for BytecodeGeneratorState {
